@@ -132,6 +132,11 @@ class Address:
         elif isinstance(addr, str):
             if _debug: Address._debug("    - str")
 
+            # the patterns accept a trailing line end and the digits of
+            # other scripts, no address is written with either
+            if re.search(r"[^\x21-\x7e]", addr):
+                raise ValueError("unrecognized format")
+
             m = combined_pattern.match(addr)
             if m:
                 if _debug: Address._debug("    - combined pattern")
